@@ -285,6 +285,12 @@ end AnyDB.Gen
         changed += extract_vec.generate(REPO, OUT)
     except extract_vec.Missing as e:
         raise Missing(str(e))
+    import extract_conc  # type: ignore
+
+    try:
+        changed += extract_conc.generate(REPO, OUT)
+    except extract_conc.Missing as e:
+        raise Missing(str(e))
     print("extract: ok" + (f" (updated {', '.join(changed)})" if changed else " (unchanged)"))
 
 
